@@ -186,9 +186,9 @@ prop('C18',
            'try_start_task once and in order, and on <name>.stop schedules a restart of exactly the task registered under that name at '
            'that moment (nothing for an unknown name); a (re)started duplex instance subscribes from just after its own new .start frame, following forever.',
      technique=TECH,
-     units=['verus:handler_ops', 'verus:restart_ops'],
+     units=['verus:lifecycle_ops', 'verus:restart_ops'],
      obligations=['generator.append.*', 'generator.try_start.*', 'generator.spawn_event.*', 'generator.live.*', 'generator.spawn.*',
-                  'handler_ops.generator_append.body', 'handler_ops.try_start_task.body', 'handler_ops.spawn_duplex_options.body',
+                  'lifecycle_ops.generator_append.body', 'lifecycle_ops.try_start_task.body', 'lifecycle_ops.spawn_duplex_options.body',
                   'restart_ops.handle_spawn_event.body', 'restart_ops.generators_live_loop.body',
                   # a spawn that was refused stays refused across a restart: the start-up compaction lets the .spawn.error supersede its spawn
                   'restart.generators.*', 'restart_ops.generators_compaction_fold.body'],
@@ -210,9 +210,9 @@ prop('C19',
            'configured suffix (default .recv) and TTL, hash of the value JSON text, stamped with command id and call id - followed by exactly one stamped '
            '<name>.complete, or, if the closure failed, exactly one stamped <name>.error carrying the error.',
      technique=TECH,
-     units=['verus:handler_ops', 'verus:restart_ops'],
-     obligations=['command.define.*', 'command.call.*', 'command.live.*', 'restart.commands.*', 'handler_ops.handle_define.body',
-                  'handler_ops.command_results.body', 'restart_ops.commands_live_loop.body', 'restart_ops.commands_startup_fold.body'],
+     units=['verus:lifecycle_ops', 'verus:restart_ops'],
+     obligations=['command.define.*', 'command.call.*', 'command.live.*', 'restart.commands.*', 'lifecycle_ops.handle_define.body',
+                  'lifecycle_ops.command_results.body', 'restart_ops.commands_live_loop.body', 'restart_ops.commands_startup_fold.body'],
      trusted=['extraction', 'sequential', 'scru128'],
      extra_assumptions=['format! / json! as in C16; register_command and run_command are oracles (nu engine); PipelineData is iterated as a sequence of values; '
                         'the execution task body (tokio::spawn async block) and spawn_blocking are elided: execute_command is verified from `match run_command(..)` on'],
@@ -381,11 +381,14 @@ prop('C17',
            'The clause "independently of what exists under the same name in other contexts" is stated as a separate obligation and '
            'fails on this tree (known finding: maps keyed by name only); with all frames in one context the two folds agree (lemma).',
      technique=TECH,
-     units=['verus:restart_ops', 'verus:handler_ops'],
+     units=['verus:restart_ops', 'verus:lifecycle_ops', 'verus:handler_ops'],
      obligations=['restart.handlers.*', 'restart.generators.*', 'restart.commands.*', 'restart_ops.handlers_replay_fold.body',
                   'restart_ops.generators_compaction_fold.body', 'restart_ops.commands_startup_fold.body',
                   'restart_ops.handlers_start_retained_in_id_order.body',
-                  'generator.spawn.*', 'handler_ops.spawn_duplex_options.body'],
+                  'generator.spawn.*', 'lifecycle_ops.spawn_duplex_options.body',
+                  # "is running again": each retained registration handed to start_handler is spawned once (or announced as rejected), and
+                  # Handler::spawn always starts its dispatch task and returns Ok - a start that can fail would end the restore loop early
+                  'handlers.start.*', 'handler_ops.start_handler.body', 'handler.spawn.*', 'handler_ops.spawn_whole.body'],
      trusted=['extraction', 'sequential', 'scru128'],
      extra_assumptions=['std HashMap<String,_> (key model, borrowed &str keys), String extensionality, rsplit_once / strip_suffix / ends_with as text '
                         'functions, serde_json::Value accessors -- all assumed; `match suffix {"..." => ..}` is rewritten to the equivalent if/else chain'],
